@@ -56,7 +56,35 @@ def gen_cases(tier, seed):
     for i in range(80 if tier == "quick" else 1500):
         cases.append({"kind": "dist", "cfg": dzoo.sample_dist_cfg(rng), "mode": "eval" if i % 2 else "train",
                       "seed": env.subseed(seed, "c13d", i), "world": "f64", "cost": 1})
+    # the repository's own tests as one more workload for the generic clauses (arguments / eval-mode state untouched)
+    cases.append({"kind": "suite", "mode": "eval", "seed": env.subseed(seed, "c13suite"), "world": "f32", "cost": 30})
     return cases
+
+
+def run_suite(case):
+    from vf import suite
+    r = R(case)
+    rec, err = suite.run()
+    if rec is None:
+        r.inconc("suite workload: %s" % err)
+        return r.done()
+    r.ev(rec["arg_checks"] + rec["state_checks"])
+    r.count("suite_calls_watched", rec["calls"])
+    r.count("suite_argument_checks", rec["arg_checks"])
+    r.count("suite_eval_state_checks", rec["state_checks"])
+    if rec.get("exitstatus"):
+        r.count("suite_had_failing_tests")
+    for v in rec["violations"]:
+        if v["kind"] == "argument_mutated":
+            r.viol("argument_mutated", "%s.%s modifies a tensor passed in by the caller" % (v["cls"].split(".")[-1], v["method"]),
+                   workload="repository test-suite", test=v.get("test"), argument=v.get("argument"))
+        elif v["kind"] == "model_mutated_in_eval":
+            r.viol("model_mutated_in_eval", "%s.%s modifies a parameter or buffer in evaluation mode" % (v["cls"].split(".")[-1], v["method"]),
+                   workload="repository test-suite", test=v.get("test"), changed=v.get("changed"))
+    for k in sorted(rec["classes"]):
+        r.cell("suite", k)
+    r.sample({"suite_workload": {"calls": rec["calls"], "classes": len(rec["classes"]), "argument_checks": rec["arg_checks"]}})
+    return r.done()
 
 
 def layout(x, kind):
@@ -103,6 +131,8 @@ def model_tensors(model):
 
 
 def run_case(case):
+    if case["kind"] == "suite":
+        return run_suite(case)
     r = R(case)
     kind, mode, seed = case["kind"], case["mode"], case["seed"]
     g = torch.Generator().manual_seed(seed)
